@@ -12,7 +12,7 @@ use refimpl as r;
 use refimpl::{Mode, MODES};
 use serde_json::json;
 
-const RULE: &str = "keys from seeds (fixed, random, and rare seeds whose t = A*s1+s2 wraps before reduction, found by an instrumented-reference scan) in every provenance (sk: generated, round-tripped; pk: generated, round-tripped, derived from either sk) x message/context shapes (rate/block boundaries, empty, prefix-imitating) x 4 modes x rnd classes; signature must be Ok, verify true under all four pk provenances, reference Verify true, RNG log = one try_fill_bytes(32). Non-trivial = distinct (set, key, sk provenance, mode, message, ctx, rnd) tuples whose signature was produced and checked under all pk provenances. A second pass signs 48000 (thorough 600000) random (msg, rnd) pairs per set, verifies every one of them under the generated and the derived public key, and re-checks the extremes (largest hint weight, largest |z|, most rejection iterations).";
+const RULE: &str = "keys from seeds (fixed, random, and rare seeds whose t = A*s1+s2 wraps before reduction, found by an instrumented-reference scan) in every provenance (sk: generated, round-tripped; pk: generated, round-tripped, derived from either sk) x message/context shapes (rate/block boundaries, empty, prefix-imitating) x 4 modes x rnd classes; signature must be Ok, verify true under all four pk provenances, reference Verify true, RNG log = one try_fill_bytes(32). Non-trivial = distinct (set, key, sk provenance, mode, message, ctx, rnd) tuples whose signature was produced and checked under all pk provenances. A second pass signs 160000 (thorough 4000000; an eighth of that in the checked build) random (msg, rnd) pairs per set under about 10000 (thorough 250000) different keys - a fresh key every 16 signatures -, verifies every one of them under the generated and the derived public key, and re-checks the extremes (largest hint weight, largest |z|, most rejection iterations).";
 
 pub fn run(ctx: &Ctx) -> StageOut {
     let mut acc = Acc::new();
@@ -107,7 +107,7 @@ fn check_one<S: PS>(
 
 fn run_set<S: PS>(ctx: &Ctx) -> Acc {
     let p = S::p();
-    let rare: Vec<[u8; 32]> = rare_keygen_seeds(ctx, p, ctx.budget(24_000, 400_000) as usize).into_iter().filter(|r| r.tags.iter().any(|t| t.starts_with("t-wrap"))).map(|r| r.xi).take(12).collect();
+    let rare: Vec<[u8; 32]> = rare_keygen_seeds(ctx, p, ctx.budget(24_000, 300_000) as usize).into_iter().filter(|r| r.tags.iter().any(|t| t.starts_with("t-wrap"))).map(|r| r.xi).take(12).collect();
     let n_plain = ctx.budget(6, 48) as usize;
     let n_seeds = n_plain + rare.len();
     let thorough = ctx.thorough();
@@ -173,7 +173,7 @@ fn run_set<S: PS>(ctx: &Ctx) -> Acc {
     // ---- pass 2: rare-event search -------------------------------------------------------------
     // Sign many random (message, rnd) pairs with one key, natively; keep the extremes and
     // put them through the full check (all provenances + reference).
-    let n_scan = ctx.budget(48_000, 600_000) as usize / if ctx.checked_build() { 4 } else { 1 };
+    let n_scan = ctx.opt_u64("scan", ctx.budget(160_000, 4_000_000)) as usize / if ctx.checked_build() { 8 } else { 1 };
     let shards = 32usize;
     let xi = Prng::derive(ctx.seed, &format!("c01-scan-key-{}", p.name), 0).arr32();
     let kb = match KeyBundle::<S>::new(xi) {
@@ -181,15 +181,22 @@ fn run_set<S: PS>(ctx: &Ctx) -> Acc {
         Err(_) => return acc,
     };
     #[derive(Clone)]
-    struct Cand { w: u64, zmax: i64, m: Vec<u8>, rnd: [u8; 32] }
+    struct Cand { w: u64, zmax: i64, m: Vec<u8>, rnd: [u8; 32], xi: [u8; 32] }
     let found = par_map(shards, |sh| {
         let mut g = Prng::derive(ctx.seed, &format!("c01-scan-{}", p.name), sh as u64);
         let mut best_w: Vec<Cand> = Vec::new();
         let mut best_z: Vec<Cand> = Vec::new();
         let mut n = 0u64;
         let mut fails = 0u64;
-        let mut rejected: Vec<(Vec<u8>, [u8; 32])> = Vec::new();
-        for _ in 0..n_scan / shards {
+        let mut rejected: Vec<(Vec<u8>, [u8; 32], [u8; 32])> = Vec::new();
+        // a fresh key every 16 signatures (shard 0 keeps the one fixed key): events that depend on a rare
+        // property of the KEY need many keys, events that depend on the signing transcript many messages
+        let mut kb_local: Option<KeyBundle<S>> = None;
+        for it in 0..n_scan / shards {
+            if sh != 0 && it % 16 == 0 {
+                kb_local = KeyBundle::<S>::new(g.arr32()).ok();
+            }
+            let kb = kb_local.as_ref().unwrap_or(&kb);
             let m = g.bytes(16);
             let rnd = g.arr32();
             let Ok((Ok(sig), _)) = sign_replay::<S>(&kb.sk_gen, &m, &[], Mode::Pure, &rnd) else { fails += 1; continue };
@@ -197,14 +204,14 @@ fn run_set<S: PS>(ctx: &Ctx) -> Acc {
             // every scanned signature is verified (rare signer/verifier disagreements are about 1 in 10^4)
             match guarded(|| (S::verify(&kb.pk_gen, &m, &sig, &[], Mode::Pure), S::verify(&kb.pk_der, &m, &sig, &[], Mode::Pure))) {
                 Ok((true, true)) => {}
-                _ => rejected.push((m.clone(), rnd)),
+                _ => rejected.push((m.clone(), rnd, kb.xi)),
             }
             let w = u64::from(sig[p.sig_len - 1]);
             let zmax = match S::h_sig_decode(&sig) {
                 Ok((_, z, _)) => z.iter().flat_map(|q| q.iter()).map(|&c| i64::from(c).abs()).max().unwrap_or(0),
                 Err(_) => -1,
             };
-            let c = Cand { w, zmax, m, rnd };
+            let c = Cand { w, zmax, m, rnd, xi: kb.xi };
             best_w.push(c.clone());
             best_w.sort_by(|a, b| b.w.cmp(&a.w));
             best_w.truncate(3);
@@ -216,7 +223,7 @@ fn run_set<S: PS>(ctx: &Ctx) -> Acc {
     });
     let mut all_w: Vec<Cand> = Vec::new();
     let mut all_z: Vec<Cand> = Vec::new();
-    let mut all_rejected: Vec<(Vec<u8>, [u8; 32])> = Vec::new();
+    let mut all_rejected: Vec<(Vec<u8>, [u8; 32], [u8; 32])> = Vec::new();
     for (bw, bz, n, fails, rej) in found {
         all_w.extend(bw);
         all_z.extend(bz);
@@ -240,13 +247,17 @@ fn run_set<S: PS>(ctx: &Ctx) -> Acc {
     }
     acc.count("scan_signatures_verified_generated_and_derived_pk", acc.get("scan_signatures"));
     // anything the scan saw rejected goes through the full monitored check (which files the violation)
-    for (m, rnd) in all_rejected.iter().take(6) {
-        check_one::<S>(&mut acc, &kb, 0, m, &[], Mode::Pure, rnd, true, "scan-rejected");
+    for (m, rnd, xi) in all_rejected.iter().take(6) {
+        if let Ok(kbx) = KeyBundle::<S>::new(*xi) {
+            check_one::<S>(&mut acc, &kbx, 0, m, &[], Mode::Pure, rnd, true, "scan-rejected");
+        }
     }
     let mut max_iters = 0u64;
     for c in all_w.iter().chain(all_z.iter()) {
+        let Ok(kbx) = KeyBundle::<S>::new(c.xi) else { continue };
+        let kb = &kbx;
         for skp in 0..2 {
-            check_one::<S>(&mut acc, &kb, skp, &c.m, &[], Mode::Pure, &c.rnd, true, "rare-extremes");
+            check_one::<S>(&mut acc, kb, skp, &c.m, &[], Mode::Pure, &c.rnd, true, "rare-extremes");
         }
         // how many rejection iterations did this one take (reference instrumentation)
         r::events_reset();
